@@ -13,6 +13,7 @@ HEADER = ("From Qib Require Import Embed.CircCheck.\nFrom Run Require Import Gen
 SIG_WRAP = "as_tensornet:two-qubit-gate-wrapped-without-reshape"
 SIG_EINSUM = "contract_einsum:label-position-slip-on-idle-wire"
 SIG_CTOR = "Circuit.__init__:gates-captured-by-reference"
+SIG_ARRAY = "by-value:array-attribute-shared-with-circuit-copy"
 
 
 def jsonable(x):
@@ -298,6 +299,8 @@ def apply_mutation(obj, mut, F):
         obj.ctrl_state[mut[1]] ^= 1
     elif k == "control_qubits_inplace":
         obj.control_qubits[mut[1]] = qubit(F, mut[2])
+    elif k == "prtcl_inplace":
+        obj.prtcl[mut[1]] = qubit(F, mut[2])
     else:
         raise ValueError(mut)
 
@@ -318,9 +321,11 @@ def rand_mutation(rng, obj, sizes):
         a = p(2)
         return ["on2", a[0], a[1]]
     if name == "PhaseFactorGate":
-        return rng.choice([["phi", rng.randint(-16, 16) / 8.0]] + ([["onlist", p(obj.nwires)]] if obj.nwires <= sum(sizes) else []))
+        return rng.choice([["phi", rng.randint(-16, 16) / 8.0], ["prtcl_inplace", rng.randrange(obj.nwires), p()[0]]]
+                          + ([["onlist", p(obj.nwires)]] if obj.nwires <= sum(sizes) else []))
     if name == "GeneralGate":
-        return ["onlist", p(obj.nwires)] if obj.nwires <= sum(sizes) else None
+        return rng.choice([["prtcl_inplace", rng.randrange(obj.nwires), p()[0]]]
+                          + ([["onlist", p(obj.nwires)]] if obj.nwires <= sum(sizes) else []))
     if name == "ControlledGate":
         n = obj.ncontrols
         opts = [["ctrl_state", [rng.randint(0, 1) for _ in range(n)]], ["ctrl_state_inplace", rng.randrange(n)],
@@ -577,6 +582,40 @@ def oracle_ctor(ctx):
                  "c.as_matrix unchanged", "changed")
 
 
+def oracle_array_alias(ctx):
+    """in-place write into the numpy array a gate object holds, after the gate was added: GeneralGate.mat and
+    RotationGate.ntheta are handed to the copy's constructor as they are (np.asarray: no copy), so the circuit's copy
+    and the caller's gate share the array.  PrepareGate.vec is re-created by its constructor (guarded here too)."""
+    import qib
+    F = mk_fields([2])
+    bad = []
+    g = qib.GeneralGate(np.array([[0, 1], [1, 0]], dtype=complex), 1).on(qubit(F, (0, 0)))
+    c = qib.Circuit()
+    c.append_gate(g)
+    A = dense(c.as_matrix(F))
+    g.mat[:] = np.diag([1, -1])
+    if not np.array_equal(A, dense(c.as_matrix(F))):
+        bad.append("GeneralGate.mat")
+    r = qib.RotationGate(np.array([0.25, 0.5, -0.75]), qubit(F, (0, 1)))
+    c = qib.Circuit()
+    c.prepend_gate(r)
+    A = dense(c.as_matrix(F))
+    r.ntheta[:] = [1.0, 0.0, 0.0]
+    if not np.array_equal(A, dense(c.as_matrix(F))):
+        bad.append("RotationGate.ntheta")
+    p = qib.PrepareGate([0.5, 0.25, 0.125, 0.125], 2).on([qubit(F, (0, 0)), qubit(F, (0, 1))])
+    c = qib.Circuit()
+    c.append_gate(p)
+    A = dense(c.as_matrix(F))
+    p.vec[:] = [0.125, 0.125, 0.25, 0.5]
+    if not np.array_equal(A, dense(c.as_matrix(F))):
+        bad.append("PrepareGate.vec")
+    if bad:
+        ctx.fail(SIG_ARRAY, {"kind": "array_alias",
+                             "program": "g = GeneralGate(U, 1).on(q0); c.append_gate(g); g.mat[:] = V   (same: RotationGate.ntheta)"},
+                 "c.as_matrix unchanged", "changed through " + ", ".join(bad))
+
+
 # ----------------------------------------------------------------------------- the check
 def run(ctx):
     import qib
@@ -591,13 +630,18 @@ def run(ctx):
         "The checker evaluates circuit matrices with re-materialisation after every gate; CheckProofs.cm_dense_correct proves "
         "that evaluation equal to the model's cmat. Tensor-network view and TN simulator: NOT modelled here, oracle/correspondence only.")
     ctx.assumes.append("control instructions are skipped by as_matrix/as_tensornet and are not part of the modelled gate list; "
-                       "in-place mutation of numpy arrays / operators / qubit objects handed to a gate and mutation through "
+                       "in-place mutation of numpy arrays / operators / qubit objects held by a gate is outside the modelled mutation "
+                       "alphabet (the arrays GeneralGate.mat / RotationGate.ntheta ARE shared by copy(): oracle + known finding "
+                       "by-value:array-attribute-shared-with-circuit-copy), as is mutation through "
                        "circuit.gates are outside the mutation alphabet; c.append_circuit(c) does not terminate and is excluded")
     ctx.rules.append("random programs (X,Y,Z,S,H,T,Sx,Rx/y/z,Rxx/yy/zz,iSwap,Phase,General, controlled incl. negated and nested "
                      "controls, multiplexed; shared control wires; idle wires; 1-3 fields; length<=10) through as_matrix (two field "
                      "orders), StatevectorSimulator, as_tensornet().contract_einsum(), TensorNetworkSimulator; builder-call "
-                     "histories over 1-3 circuits with mutations after every kind of add. non-trivial = program with >=2 gates "
-                     "sharing a wire or an idle wire, or history with a mutation after a builder call")
+                     "histories over 1-3 circuits with mutations after every kind of add. scripted histories: every mutation of the "
+                     "alphabet on every object reachable from the added gate, after append and prepend, directly and after the gate "
+                     "travelled through a second circuit. non-trivial = program with >=2 gates "
+                     "sharing a wire or an idle wire, or builder program composing >=2 gates, or history with a mutation after a "
+                     "builder call")
     ctx.lib(["Embed/CircCheck", "Embed/CircProofs", "Embed/HeapProofs", "Embed/CheckProofs"])
     ok = ctx.translate("GenCirc", gen_embed.generate_circ)
     if ok:
@@ -608,11 +652,16 @@ def run(ctx):
     rng = ctx.rng
     cases = []
 
+    sampled = {}
+
     def add(term, desc, nontrivial=True):
         cases.append((term, desc))
         if nontrivial:
             ctx.nontriv(desc)
-        ctx.sample(desc, cap=8)
+            k = (desc.get("kind"), desc.get("view"))
+            if sampled.get(k, 0) < 3:
+                sampled[k] = sampled.get(k, 0) + 1
+                ctx.sample(desc, cap=16)
 
     # ------------------------------------------------------------ fixed inputs of the known defects
     fixed = [
@@ -713,6 +762,63 @@ def run(ctx):
             scripted.append(ev + [["mutR", 0, [], ["on1", [0, 2]]], ["mutR", 1, [], ["attr_qubit", [0, 2]]]])
             scripted.append(ev + [["circ"], ["append_circuit", 1, 0], ["mutR", 0, [], ["on1", [0, 2]]],
                                   ["prepend_circuit", 0, 1], ["mutR", 1, [], ["on1", [0, 2]]]])
+    # every mutation of the alphabet (attribute assignment, public mutator, in-place write into a list-valued
+    # attribute), each on its own, on every object reachable from the added gate, after each kind of add; qubit
+    # (0,3) is free in all of them, so every mutation changes the value of the caller's object
+    free = [0, 3]
+    MUT_C = lambda st: [["ctrl_state", [1 - b for b in st]], ["ctrl_state_inplace", 0],
+                        ["control_qubits_inplace", 0, free], ["set_control", [free]]]
+    MUT_MUX = [["control_qubits_inplace", 0, free], ["set_control", [free]]]
+    MUT_ONE = [["on1", free], ["attr_qubit", free]]
+    gen2 = mat_spec(np.array([[0, 1j, 0, 0], [0, 0, 0, 1], [-1, 0, 0, 0], [0, 0, -1j, 0]]))
+    leaves = [(["X", [0, 1]], MUT_ONE),
+              (["Rz", 0.5, [0, 1]], MUT_ONE + [["theta", -0.75]]),
+              (["Rzz", 0.5, [0, 1], [0, 2]], [["theta", -0.75], ["q1", free]]),
+              (["iSwap", [0, 1], [0, 2]], [["on2", [0, 2], [0, 1]], ["on2", [0, 1], free]]),
+              (["Phase", 0.25, [[0, 1], [0, 2]]], [["phi", -0.5], ["onlist", [[0, 2], free]], ["prtcl_inplace", 1, free]]),
+              (["Gen", gen2, [[0, 1], [0, 2]]], [["onlist", [[0, 2], [0, 1]]], ["prtcl_inplace", 0, free]])]
+    scripted4 = []
+    for add_op in ("append_gate", "prepend_gate"):
+        for leaf, lmuts in leaves:
+            base = [["circ"], ["new", ["Y", [0, 0]]], [add_op, 0, 0], ["new", leaf]]
+            # the leaf itself, and as the target of a controlled gate (control qubit (0,0))
+            for mt in lmuts:
+                scripted4.append(base + [[add_op, 0, 1], ["mutR", 1, [], mt]])
+                scripted4.append(base + [["newC", [1], [[0, 0]], 1], [add_op, 0, 2], ["mutR", 2, [0], mt]])
+                scripted4.append(base + [["newC", [1], [[0, 0]], 1], [add_op, 0, 2], ["mutR", 1, [], mt]])
+        pre = [["circ"], ["new", ["X", [0, 1]]], ["new", ["Z", [0, 1]]]]
+        shapes = [
+            (pre + [["newC", [1], [[0, 0]], 0]], 2, [([], MUT_C([1])), ([0], MUT_ONE)]),
+            (pre + [["newMux", [[0, 0]], [0, 1]]], 2, [([], MUT_MUX), ([0], MUT_ONE), ([1], MUT_ONE)]),
+            (pre + [["newC", [1], [[0, 0]], 0], ["newC", [0], [[0, 2]], 2]], 3,
+             [([], MUT_C([0])), ([0], MUT_C([1])), ([0, 0], MUT_ONE)]),
+            (pre + [["newC", [1], [[0, 2]], 0], ["newC", [1], [[0, 2]], 1], ["newMux", [[0, 0]], [2, 3]]], 4,
+             [([], MUT_MUX), ([0], MUT_C([1])), ([1], MUT_C([1])), ([1, 0], MUT_ONE)]),
+        ]
+        for ev, top, per_path in shapes:
+            for pth, muts in per_path:
+                for mt in muts:
+                    scripted4.append(ev + [[add_op, 0, top], ["mutR", top, pth, mt]])
+                    # the same after the gate travelled through a second circuit
+                    scripted4.append(ev + [[add_op, 0, top], ["circ"], ["append_circuit", 1, 0], ["prepend_circuit", 0, 1],
+                                           ["mutR", top, pth, mt]])
+    for evs in scripted4:
+        sizes = [4]
+        evs = jsonable(evs)
+        desc = {"kind": "history", "sizes": sizes, "events": evs}
+        res = run_history(ctx, rng, sizes, evs, desc)
+        ctx.count("history_scripted_each_mutation")
+        for e in evs:
+            if e[0] == "mutR":
+                ctx.count("scripted_mutation_" + e[3][0])
+        if res is None:
+            continue
+        model, cvals, hvals = res
+        add("CHist %s %s %s" % (ct.lst(["(%s)" % m for m in model]),
+                                ct.lst([ct.lst([gval_term(v) for v in c]) for c in cvals]),
+                                ct.lst([gval_term(v) for v in hvals])),
+            {"kind": "history", "sizes": sizes, "events": desc["events"]})
+
     for evs in scripted:
         sizes = [3]
         desc = {"kind": "history", "sizes": sizes, "events": evs}
@@ -752,6 +858,7 @@ def run(ctx):
                                 ct.lst([gval_term(v) for v in hvals])),
             {"kind": "history", "sizes": sizes, "events": desc["events"]}, has_mut_after_add)
     oracle_ctor(ctx)
+    oracle_array_alias(ctx)
     ctx.notes.append("observations outside the property text: StatevectorSimulator.run raises AttributeError on circuits "
                      "containing control instructions (as_matrix/as_tensornet skip them); c.append_circuit(c) never terminates; "
                      "copy() of a ControlledGate/PhaseFactorGate/GeneralGate without bound particles raises ValueError")
@@ -784,5 +891,7 @@ def replay(ctx, data):
         oracle_builders(ctx, inp["sizes"], inp["ops"], inp)
     elif k == "ctor":
         oracle_ctor(ctx)
+    elif k == "array_alias":
+        oracle_array_alias(ctx)
     if len(ctx.failing) > before and not any(f["sig"] == sig for f in ctx.failing):
         ctx.fail(sig, inp, data.get("expected"), "still fails (different symptom)")
